@@ -22,7 +22,7 @@ from ..lib import make_evaluator
 ID = "C17"
 LEVEL = "fault_enumeration"
 RULE = (
-    "(a) initial output file in {absent, empty, header only, header + row of s1, header + all rows, header + stale buffer with a claim} x session 1 (constructor + evaluate(s1) + evaluate(s3) where s3 has an empty prediction and therefore blank cells in its row, optionally ending with its atexit callbacks) killed "
+    "(a) initial output file in {absent, empty, header only, header + row of s1, header + all rows, header + stale buffer with a claim} x session 1 (constructor + evaluate(s1) + evaluate(s3) where s3 has an empty prediction (blank cells in its row) and a name containing a double quote and a tab (quoted in the file), optionally ending with its atexit callbacks) killed "
     "before operation k for every k (or not at all) x session 2 likewise x final complete session resubmitting all subjects (thorough: 3 subjects; additionally THREE killed sessions in a row with every combination of crash points, 2 subjects); "
     "(b) BFS over histories of operations {new A, new B (sibling in the same directory), new C, restart A (new object on A's file without exit), X.evaluate(s1|s3), exit(X)} for three file-naming schemes (x/y, study.fold1/study.fold2, model/model.v1.0/model_2) up to depth 6 (thorough 8) with state = file system contents + live aggregators; "
     "(c) every sequential history of length <= 3 replayed on a real temporary directory and on the in-memory file system (identical final bytes). "
@@ -42,6 +42,7 @@ P3 = np.array([[0, 0, 0, 0], [0, 0, 0, 0]], dtype=np.uint8)
 R3 = np.array([[0, 3, 3, 0], [0, 0, 0, 0]], dtype=np.uint8)
 DATA = {"s1": (P1, R1), "s2": (P2, R2), "s3": (P3, R3)}
 OUT = "/vfs/d/out.tsv"
+NAME = {"s1": "s1", "s2": "s2", "s3": 'ph"antom\t3'}
 INITS = ("absent", "empty", "header", "header+s1", "header+all", "header+stale_buffer")
 
 
@@ -77,11 +78,12 @@ def reference(subjects):
         ev = _make_ev()
         A = Panoptica_Aggregator(ev, OUT)
         for s in subjects:
-            A.evaluate(DATA[s][0].copy(), DATA[s][1].copy(), s)
+            A.evaluate(DATA[s][0].copy(), DATA[s][1].copy(), NAME[s])
         rows = agg.parse_tsv(vfs.fs.files[OUT])
         agg.drop_exit_handlers()
         lines = vfs.fs.files[OUT].splitlines(keepends=True)
-        _REF[key] = dict(header=rows[0], header_line=lines[0], rows={r[0]: r for r in rows[1:]}, lines={r[0]: l for r, l in zip(rows[1:], lines[1:])})
+        inv = {v: k for k, v in NAME.items()}
+        _REF[key] = dict(header=rows[0], header_line=lines[0], rows={inv[r[0]]: r for r in rows[1:]}, lines={inv[r[0]]: l for r, l in zip(rows[1:], lines[1:])})
     return _REF[key]
 
 
@@ -98,7 +100,14 @@ def initial_files(init, subjects):
     if init == "header+all":
         return {OUT: ref["header_line"] + "".join(ref["lines"][s] for s in subjects)}
     if init == "header+stale_buffer":
-        stale = "subject_name\n" + "".join(s + "\n" for s in subjects)
+        import csv as _csv, io as _io
+
+        buf = _io.StringIO()
+        w = _csv.writer(buf, delimiter="\t", lineterminator="\n")
+        w.writerow(["subject_name"])
+        for s_ in subjects:
+            w.writerow([NAME[s_]])
+        stale = buf.getvalue()
         return {OUT: ref["header_line"] + ref["lines"]["s1"], "/vfs/d/out_panoptica_aggregator_tmp.tsv": stale, "/vfs/d/panoptica_aggregator_tmp.tsv": stale}
     raise ValueError(init)
 
@@ -131,7 +140,7 @@ def session(subjects, crash_at, with_exit, out=OUT):
         ev = _make_ev()
         A = Panoptica_Aggregator(ev, out)
         for s in subjects:
-            A.evaluate(DATA[s][0].copy(), DATA[s][1].copy(), s)
+            A.evaluate(DATA[s][0].copy(), DATA[s][1].copy(), NAME[s])
         if with_exit:
             agg.run_exit_handlers()
             # a process that exits normally also finalizes its objects
@@ -219,8 +228,9 @@ def judge_final(acc, case, tag, subjects, evaluated_before, sig="C17"):
         kind = "header_missing" if nhead == 0 else "header_repeated" if nhead > 1 else "header_not_first"
         acc.violation(f"{sig}:{kind}", case, f"{tag}: the header occurs {nhead} times / first line is {rows[0][:3] if rows else None}; file:\n{text[:300]}")
         ok = False
+    inv = {v: k for k, v in NAME.items()}
     body = [r for r in rows if r != ref["header"]]
-    names = [r[0] for r in body]
+    names = [inv.get(r[0], r[0]) for r in body]
     if sorted(names) != sorted(subjects):
         dup = sorted({n for n in names if names.count(n) > 1})
         miss = sorted(set(subjects) - set(names))
@@ -228,8 +238,9 @@ def judge_final(acc, case, tag, subjects, evaluated_before, sig="C17"):
         acc.violation(f"{sig}:{kind}", case, f"{tag}: rows for {names}, expected exactly one per subject of {list(subjects)}")
         ok = False
     for r in body:
-        if r[0] in ref["rows"] and r != ref["rows"][r[0]]:
-            acc.violation(f"{sig}:row_differs", case, f"{tag}: row of {r[0]} is {r[1:6]}..., an uninterrupted run writes {ref['rows'][r[0]][1:6]}...")
+        k = inv.get(r[0], r[0])
+        if k in ref["rows"] and r != ref["rows"][k]:
+            acc.violation(f"{sig}:row_differs", case, f"{tag}: row of {r[0]!r} is {r[1:6]}..., an uninterrupted run writes {ref['rows'][k][1:6]}...")
             ok = False
     return ok
 
@@ -267,7 +278,7 @@ def run_case(case, acc):
             session(subjects, k2, ex2)
             before = agg.parse_tsv(vfs.fs.files.get(OUT, ""))
             ref = reference(subjects)
-            finished = {r[0] for r in before if r != ref["header"] and len(r) == len(ref["header"])}
+            finished = {{v: k for k, v in NAME.items()}.get(r[0], r[0]) for r in before if r != ref["header"] and len(r) == len(ref["header"])}
             CountingEvaluator.calls = []
             # the final session resubmits in the original or (for odd crash-point sums) the reversed order
             final_order = list(reversed(subjects)) if ((k1 or 0) + (k2 or 0)) % 2 else list(subjects)
@@ -332,9 +343,9 @@ def _replay_history(hist):
             handlers[x] = seams.atexit_callbacks[n0:]
         elif op[0] == "eval":
             _, x, s = op
-            live[x].evaluate(DATA[s][0].copy(), DATA[s][1].copy(), s)
-            if s not in submitted[FILES[x]]:
-                submitted[FILES[x]].append(s)
+            live[x].evaluate(DATA[s][0].copy(), DATA[s][1].copy(), NAME[s])
+            if NAME[s] not in submitted[FILES[x]]:
+                submitted[FILES[x]].append(NAME[s])
         elif op[0] == "exit":
             x = op[1]
             for f, a, k in handlers.get(x, []):
@@ -529,7 +540,7 @@ def _crash3(case, acc):
             session(subjects, k3, False)
             ref = reference(subjects)
             before = agg.parse_tsv(vfs.fs.files.get(OUT, ""))
-            finished = {r[0] for r in before if r != ref["header"] and len(r) == len(ref["header"])}
+            finished = {{v: k for k, v in NAME.items()}.get(r[0], r[0]) for r in before if r != ref["header"] and len(r) == len(ref["header"])}
             CountingEvaluator.calls = []
             session(list(reversed(subjects)) if (k1 + k2 + k3) % 2 else subjects, None, True)
             if LAST_ERROR:
